@@ -113,7 +113,7 @@ func genStream(r *lib.Rand) streamB {
 	puts("  V1")
 	identified := false
 	// a valid prefix
-	if r.Chance(75) {
+	if r.Chance(55) {
 		if r.Chance(15) {
 			puts(spaceVariants[r.Intn(len(spaceVariants))] + "\n")
 		}
@@ -189,9 +189,8 @@ func genStream(r *lib.Rand) streamB {
 	default:
 		// IDENTIFY with a hostile size / body (only meaningful on a connection that has not identified)
 		if identified {
-			puts("PING\n")
-			s.class = "valid-then-eof"
-			s.expect = "OK"
+			puts(unknownCommands[r.Intn(len(unknownCommands))] + "\n")
+			s.expect, s.class = "E_INVALID", "unknown-command"
 			break
 		}
 		puts("IDENTIFY\n")
@@ -348,6 +347,57 @@ func genSession(r *lib.Rand, k int) sessIn {
 		}
 	}
 	return s
+}
+
+// genMatrix: every route x method, with the full argument cross product where a handler
+// looks at the arguments and a small covering set elsewhere, cut into sessions.
+func genMatrix(perSession int) []sessIn {
+	var reqs []actIn
+	argful := map[string]int{"/topic/create": 1, "/topic/delete": 1, "/lookup": 1, "/channels": 1,
+		"/channel/create": 2, "/channel/delete": 2, "/topic/tombstone": 3}
+	for _, path := range httpPaths {
+		for _, m := range httpMethods {
+			kind := argful[path]
+			right := (m == "POST") == strings.HasPrefix(path, "/topic/") || strings.HasPrefix(path, "/channel/")
+			if kind == 0 || !right {
+				reqs = append(reqs, actIn{K: "http", Method: m, Path: path},
+					actIn{K: "http", Method: m, Path: path, QT: sp(byTopic), QC: sp(byChan), QN: sp("bystander:4151")},
+					actIn{K: "http", Method: m, Path: path, RawQ: "topic=%zz"})
+				continue
+			}
+			for _, t := range httpTopics {
+				switch kind {
+				case 1:
+					reqs = append(reqs, actIn{K: "http", Method: m, Path: path, QT: t})
+				case 2:
+					for _, c := range httpChans {
+						reqs = append(reqs, actIn{K: "http", Method: m, Path: path, QT: t, QC: c})
+					}
+				case 3:
+					for _, nd := range httpNodes {
+						reqs = append(reqs, actIn{K: "http", Method: m, Path: path, QT: t, QN: nd})
+					}
+				}
+			}
+			reqs = append(reqs, actIn{K: "http", Method: m, Path: path, RawQ: "topic=%zz"})
+		}
+	}
+	var out []sessIn
+	for i := 0; i < len(reqs); i += perSession {
+		j := i + perSession
+		if j > len(reqs) {
+			j = len(reqs)
+		}
+		acts := []actIn{{K: "op", Op: &opIn{K: "identify", Info: &byInfo}}, {K: "op", Op: &opIn{K: "register", T: byTopic, C: byChan}}}
+		for k, a := range reqs[i:j] {
+			acts = append(acts, a)
+			if k%8 == 7 { // the bystander re-registers now and then: deletions must not be the end of it
+				acts = append(acts, actIn{K: "op", Op: &opIn{K: "register", T: byTopic, C: byChan}})
+			}
+		}
+		out = append(out, sessIn{Profile: "hostile", Name: fmt.Sprintf("matrix-%d", len(out)), Acts: acts})
+	}
+	return out
 }
 
 // ------------------------------------------------------------------ the subprocess
